@@ -35,9 +35,9 @@ def run(tier, replay=None):
         ("lz2-valid", "lzma2", 2, ["I", "I", "I"], dict(), "rand"),
     ] + ([] if quick else [
         ("lz2-3w-bad2", "lzma2", 3, ["I", "I", "D", "I"], dict(bad=[2]), "tour"),
-        ("lz2-3w-bad01", "lzma2", 3, ["I", "I", "I", "I"], dict(bad=[0, 1]), "rand"),
+        ("lz2-3w-bad01", "lzma2", 3, ["I", "I", "I"], dict(bad=[0, 1]), "rand"),
         ("lz2-5u-bad3", "lzma2", 2, ["I", "I", "I", "I", "I"], dict(bad=[3]), "rand"),
-        ("lzip-3w-bad2", "lzip", 3, ["M", "M", "M", "M"], dict(bad=[2]), "tour"),
+        ("lzip-3w-bad2", "lzip", 3, ["M", "M", "M"], dict(bad=[2]), "tour"),
         ("lzip-bad2", "lzip", 2, ["M", "M", "M"], dict(bad=[2]), "tour"),
         ("lz2-bad1-full", "lzma2", 2, ["I", "I", "I"], dict(bad=[1]), "fulltour"),
     ]))
